@@ -8,8 +8,9 @@
   * Strings are lists of code points (`Str`), results are `Outcome`s (value / `None` / raised exception), as in
     Model/Serializer.lean.
   * The model follows the FIXED code: patch D13 (`width, height, body = url.split("/")[-3:]` in
-    `compass.parse_puzz_link_url`; the unchanged code binds the two numbers the other way round).  On the unchanged tree
-    the correspondence run disagrees exactly there.
+    `compass.parse_puzz_link_url`; the unchanged code binds the two numbers the other way round) and patch D14 (the parser
+    also reads the `+xxx` form that `encode_array` writes for numbers 256..4095; the unchanged code raises `ValueError`
+    from `int("+", 16)`).  On the unchanged tree the correspondence run disagrees exactly there.
   * Not modelled (outside the domain the harness generates, said where it matters): `int()` on text with surrounding
     whitespace (accepted by Python, `ValueError` here); `ZeroDivisionError` (width 0 with a clue cell in
     `parse_puzz_link_url`) has no constructor in `PyErr` and is represented by `.runtimeError`; non-integer block ids;
@@ -210,7 +211,9 @@ def pyIntSigned (b : Nat) (dv : Nat → Option Nat) (s : Str) : Outcome Int :=
 def pyIntDec (s : Str) : Outcome Int := pyIntSigned 10 decimalVal s
 def pyIntHex (s : Str) : Outcome Int := pyIntSigned 16 hexDigitVal s
 
-/-- the `for j in range(4)` loop of `parse_puzz_link_url`: reads `k` numbers from `body` at index `i` -/
+/-- the `for j in range(4)` loop of `parse_puzz_link_url`: reads `k` numbers from `body` at index `i` (with patch D14:
+`elif body[i] == "+": num[j] = int(body[i + 1 : i + 4], 16); i += 4`).  In a 3-character slice Python's `int(…, 16)` would
+also accept `0x1` and `1_1`; such text is outside the modelled domain. -/
 def compassNums (body : Str) : Nat → Nat → List Int → Outcome (Nat × List Int)
   | 0, i, acc => .ok (i, acc)
   | k + 1, i, acc =>
@@ -218,6 +221,7 @@ def compassNums (body : Str) : Nat → Nat → List Int → Outcome (Nat × List
     | Option.none => .raised .indexError
     | some c =>
       if c = 45 then (pyIntHex (slice body (i + 1) 2)).bind fun v => compassNums body k (i + 3) (acc ++ [v])
+      else if c = 43 then (pyIntHex (slice body (i + 1) 3)).bind fun v => compassNums body k (i + 4) (acc ++ [v])
       else if c = 46 then compassNums body k (i + 1) (acc ++ [-1])
       else (pyIntHex [c]).bind fun v => compassNums body k (i + 1) (acc ++ [v])
 
@@ -238,7 +242,7 @@ def compassParseLoop (body : Str) (width : Int) : Nat → Nat → Int → List C
               (res ++ [⟨pyDiv pos width, pyMod pos width, a, c2, b, d⟩])
           | _ => .raised .assertionError     -- unreachable: `compassNums … 4` returns four numbers
 
-/-- `compass.parse_puzz_link_url(url)` with patch D13: the last three `/`-separated parts are width, height, body.
+/-- `compass.parse_puzz_link_url(url)` with patches D13, D14: the last three `/`-separated parts are width, height, body.
 Returns `(height, width, clues)`. -/
 def compassParsePuzzLinkUrl (url : Str) : Outcome (Int × Int × List CompassClue) :=
   let parts := splitOn 47 url
